@@ -534,3 +534,88 @@ func VerifC02_CachedBatchPurge() {
 	}
 	rt.Reach("cachedbatch-end")
 }
+
+// ---- a query running while a stored record is written again (G2: one
+// preemption at any synchronisation operation): both finish, the query yields
+// the record ----
+
+// c02SlowRec: natively its lock is held for a moment, so that the other
+// goroutine reaches its own locks in the meantime.
+type c02SlowRec struct {
+	c02Rec
+	pauseAt int // natively: the n-th Lock call signals and pauses (0 = never)
+	locks   int
+	locked  chan struct{}
+}
+
+func (r *c02SlowRec) Lock() {
+	r.c02Rec.Lock()
+	if r.pauseAt > 0 && !rt.Symbolic() {
+		r.locks++
+		if r.locks == r.pauseAt {
+			close(r.locked)
+			rt.NativePause()
+		}
+	}
+}
+
+func VerifC02_QueryDuringRewrite() {
+	rt.NoTimers()
+	rt.SchedYieldOnly(true)
+	rt.Preemptions(1)
+	ctl := c02Setup(rt.Bool("shadowdelete"))
+	iface := NewInterface(&Options{Local: true, Internal: true})
+	a := &c02SlowRec{}
+	a.N = 1
+	a.SetKey("t:a")
+	rt.Assert(iface.Put(a) == nil, "rewrite/put-ok")
+	// the other side: a query, or record maintenance finding the record expired
+	maintain := rt.Bool("maintenance")
+	if maintain {
+		a.Meta().Expires = time.Now().Unix() - 10
+	}
+	done := make(chan error, 1)
+	op := rt.Choice("op", 3)
+	if maintain {
+		op = 0 // (the other operations do not find an expired record)
+	}
+	// the lock under which the record is handed to the storage: the second one in Put
+	a.locked = make(chan struct{})
+	a.pauseAt = 1
+	if op == 0 {
+		a.pauseAt = 2
+	}
+	go func() {
+		// the stored record (the same object, as Get returns it) is written again
+		switch op {
+		case 0:
+			done <- iface.Put(a)
+		case 1:
+			done <- iface.SetAbsoluteExpiry("t:a", time.Now().Unix()+100)
+		default:
+			done <- iface.MakeCrownJewel("t:a")
+		}
+	}()
+	if !rt.Symbolic() {
+		<-a.locked // natively: the writer holds the record's lock by now
+	}
+	if maintain {
+		// maintenance marks the expired record (shadow delete) or removes it
+		rt.Assert(ctl.MaintainRecordStates(context.Background(), time.Now()) == nil, "rewrite/maintenance-ok")
+	} else {
+		it, err := iface.Query(query.New("t:"))
+		rt.Assert(err == nil, "rewrite/query-ok")
+		n := 0
+		for range it.Next {
+			n++
+		}
+		rt.Assert(it.Err() == nil, "rewrite/query-finished-without-error")
+		rt.Assert(n == 1, "rewrite/query-yields-the-record")
+	}
+	werr := <-done // a deadlock of the two shows here
+	if !maintain {
+		rt.Assert(werr == nil, "rewrite/write-ok")
+	}
+	a.pauseAt = 0
+	rt.Reach("rewrite-end")
+}
